@@ -108,3 +108,32 @@ func VerifC02Levels() {
 	_ = bytes.Equal
 	verifCover("end")
 }
+
+// VerifC02BadReportLatest: every rejected line "becomes visible in the bad-metrics report under its name with the
+// rejected text and the reason": two to three lines of one series rejected for the same reason in a row (same
+// name, value tokens that are no numbers) -- after each, the report shows that line's text.
+func VerifC02BadReportLatest() {
+	t := verifNewTable(m20.MediumLegacy, m20.MediumM20, false)
+	all, _ := matcher.New("", "", "", "", "", "")
+	r := &verifCapRoute{key: "r", m: all}
+	t.AddRoute(r)
+	inv0 := stats.Counter("unit=Err.type=invalid").Count()
+	n := 2 + verifChoice("nlines", 2)
+	toks := []string{"x0", "y1", "x0"}
+	for i := 0; i < n; i++ {
+		// value tokens that are no numbers (concrete: strconv.ParseFloat runs natively on them); the third line
+		// repeats the text of the first
+		line := []byte("a.b " + toks[i] + " 1")
+		t.Dispatch(line)
+		verifSettle()
+		recs := t.Bad().Get(24 * time.Hour)
+		verifAssert(len(recs) == 1, "one-bad-record-per-name")
+		if len(recs) == 1 {
+			verifAssert(recs[0].Metric == "a.b", "bad-record-name")
+			verifAssert(recs[0].LastMsg == string(line), "report-shows-the-text-of-the-latest-rejected-line")
+		}
+	}
+	verifAssert(stats.Counter("unit=Err.type=invalid").Count() == inv0+int64(n), "invalid-counted-once-per-line")
+	verifAssert(len(r.got) == 0, "invalid-line-not-routed")
+	verifCover("end")
+}
